@@ -1,8 +1,11 @@
 """C10 - loading untrusted bytes / bytecode cannot corrupt memory.
 
-(A) regenerate Gen/Bytecode.lean, Gen/VmAccess.lean, Gen/ImageChecks.lean from the current tree
-(B,C) kernel-check Props/C10 (verify_sound over the generated tables, image well-formedness) + axiom audit
-(D) correspondence: Lean model of verify / image validation vs the real unmarshal on generated images
+(A) regenerate Gen/Bytecode.lean, Gen/VmAccess.lean, Gen/ImageChecks.lean, Gen/PegAccess.lean, Gen/UnmarshSites.lean (read sites of
+    marsh.c, abstract hooks, asm exit paths), Gen/VmGuards.lean (value-dependent dereferences of vm.c) from the current tree
+(B,C) kernel-check Props/C10 (verify_sound over the generated tables, image well-formedness, byte-level totality of unmarshal)
+    and the obligation modules Unmarsh.Obligations, PegVerify.Obligations, Unmarsh.BytesObligations, Bytecode.GuardObligations
+    + axiom audit
+(D) correspondence: Lean models of verify / fiber validation / PEG verifier / the byte-level unmarshaller vs the real code
 (E) direct oracle: every image / asm description goes through the real unmarshal / asm in an ASan+UBSan process; every
     accepted function / fiber is called, resumed, cancelled, stepped, printed, compared, hashed, marshalled and collected.
     A sanitizer report, a signal, an exit or a hang is the violation; replay = the hex bytes / asm text.
@@ -33,7 +36,7 @@ THEOREMS = ["JanetModel.Props.C10." + t for t in (
     "JanetModel.Props.C10.unmarshal_total_inbounds_of_sites_ok", "JanetModel.Props.C10.unmarshal_terminates_of_sites_ok",
     "JanetModel.Props.C10.witness_missing_check_over_reads"]
 GUARD_OBLIGATIONS = ["JanetModel.Bytecode.GuardObligations.vm_value_guards", "JanetModel.Bytecode.GuardObligations.vm_value_guards_nonempty"]
-BYTES_OBLIGATIONS = ["JanetModel.Unmarsh.BytesObligations." + t for t in ("sites_ok", "unmarshal_total_inbounds", "unmarshal_terminates", "peg_size_checked", "asm_ok_only_after_verify")] + [
+BYTES_OBLIGATIONS = ["JanetModel.Unmarsh.BytesObligations." + t for t in ("sites_ok", "refs_checked", "unmarshal_total_inbounds", "unmarshal_terminates", "peg_size_checked", "asm_ok_only_after_verify")] + [
     "JanetModel.Unmarsh.PegSize.peg_alloc_covers_writes", "JanetModel.Unmarsh.PegSize.witness_peg_size_wraps"]
 PEG_OBLIGATIONS = ["JanetModel.PegVerify.Obligations." + t for t in ("peg_tables_consistent", "peg_verify_sound")]
 IMAGE_OBLIGATIONS = ["JanetModel.Unmarsh.Obligations." + t for t in ("image_checks_present", "fiber_image_wf", "function_image_wf", "env_untrusted_checked")]
@@ -763,7 +766,9 @@ def run(ctx):
     }
     return ctx.finish("proof", cov, assumptions=[
         "memory safety of the C code itself is ASan/UBSan-tested, not proved; the theorems are about the Lean models of janet_verify / image validation",
-        "image validation is modelled on decoded header / frame records (byte-level totality of unmarshal is tested by truncation at every offset, not proved)",
+        "unmarshal_total_inbounds / unmarshal_terminates are theorems about the byte-level Lean model of marsh.c's readers (every MARSH_EOS offset regenerated per read site, "
+        "accept/reject + bytes consumed + type compared with the real janet_unmarshal on the sampled inputs of the run); writes into created objects are modelled for the PEG layout only; unsafe mode is outside the model",
+        "asm_ok_only_after_verify and vm_value_guards are shape facts over regenerated tables (textual dominance of the test), not semantic models of janet_asm1 / run_vm",
         "tools/gen/vmaccess.py transcribes handler operand uses and the presence of each validation by anchored regexes (ExtractError when the shape changes)",
         "PEG: the theorem is about the model of the verifier loop in peg_unmarshal and the extracted operand uses of peg_rule; peg_rule's matching semantics is not modelled (C12)"])
 
